@@ -303,13 +303,15 @@ AbbrevLemma(D) ==
 
 -----------------------------------------------------------------------------
 (* Mode "files" *)
-EncP(v, w, a, pv) == [version |-> v, word |-> w, asz |-> a, prog |-> pv]
+EncP(v, w, a, pv) == [version |-> v, word |-> w, asz |-> a, prog |-> pv, nfiles |-> 2]
+(* file tables large enough for indices around the ULEB128 length boundaries *)
+BigFiles == IF AllPlacements THEN {126, 127, 128, 129, 16382, 16383, 16384, 16385} ELSE {126, 127, 128, 129}
 FileVal(n) == [k |-> "FileIndex", f |-> n]
 FilesFan == /\ c.stage = 0 /\ "uv" \notin DOMAIN c
             /\ \E uv \in {2, 3, 4, 5} : \E pv \in {2, 3, 4, 5} : c' = [stage |-> 0, uv |-> uv, pv |-> pv]
 FilesNext ==
     /\ c.stage = 0 /\ "uv" \in DOMAIN c
-    /\ \E w \in {4, 8} : \E variant \in {"attached", "detached", "unused"} :
+    /\ \/ \E w \in {4, 8} : \E variant \in {"attached", "detached", "unused"} :
          c' = [stage |-> 1, encs |-> <<EncP(c.uv, w, 8, c.pv), Enc(c.pv, 12 - w, 8)>>,
                calls |-> <<AddCall(1, 1, "DW_TAG_subprogram"), AddCall(1, 1, "DW_TAG_variable"), AddCall(1, 2, "DW_TAG_variable"),
                            AddCall(2, 1, "DW_TAG_variable"),
@@ -322,6 +324,21 @@ FilesNext ==
                                     [op |-> "delete", u |-> 1, e |-> 3, name |-> "DW_AT_decl_file"],
                                     [op |-> "delete", u |-> 1, e |-> 3, name |-> "DW_AT_type"]>> ELSE <<>>),
                be |-> (c.uv + c.pv + w + Salt) % 3 = 0, probe |-> "files"]
+       (* a large file table: the index crosses a ULEB128 length boundary, later entries and *)
+       (* references (in-unit forward / backward, cross-unit) sit behind the file attribute  *)
+       \/ \E n \in BigFiles :
+         LET w == IF (c.uv + c.pv + n + Salt) % 2 = 0 THEN 4 ELSE 8 IN
+         c' = [stage |-> 1, encs |-> <<[EncP(c.uv, w, 8, c.pv) EXCEPT !.nfiles = n + 1], Enc(c.pv, 12 - w, 8)>>,
+               calls |-> <<AddCall(1, 1, "DW_TAG_subprogram"), AddCall(1, 1, "DW_TAG_variable"), AddCall(1, 1, "DW_TAG_base_type"),
+                           AddCall(2, 1, "DW_TAG_variable"),
+                           SetCall(1, 2, "DW_AT_type", [k |-> "UnitRef", e |-> 3]),
+                           SetCall(1, 2, "DW_AT_decl_file", FileVal(n)),
+                           SetCall(1, 2, "DW_AT_call_file", FileVal(n + 1)),
+                           SetCall(1, 3, "DW_AT_decl_file", FileVal(n - 1)),
+                           SetCall(1, 3, "DW_AT_type", [k |-> "UnitRef", e |-> 4]),
+                           SetCall(1, 4, "DW_AT_friend", [k |-> "UnitRef", e |-> 2]),
+                           SetCall(2, 2, "DW_AT_abstract_origin", [k |-> "DebugInfoRef", u |-> 1, e |-> 3])>>,
+               be |-> (c.uv + c.pv + n + Salt) % 3 = 0, probe |-> "files"]
 
 -----------------------------------------------------------------------------
 (* Mode "builder": c = [stage, encs, calls, ns (structure calls), nm (modifier calls), last] *)
@@ -430,7 +447,7 @@ Inv == (c.stage = 1 /\ (Mode \in {"kinds", "wide", "lists", "twins", "files"} \/
                                                 IF Prog(c.encs[u]) = 0
                                                 THEN [version |-> c.encs[u].version, format |-> c.encs[u].word, asz |-> c.encs[u].asz]
                                                 ELSE [version |-> c.encs[u].version, format |-> c.encs[u].word, asz |-> c.encs[u].asz,
-                                                      lineprog |-> c.encs[u].prog]],
+                                                      lineprog |-> c.encs[u].prog, nfiles |-> c.encs[u].nfiles]],
                                    alt_err |-> \E u \in DOMAIN D.units : ProgMismatch(D.units[u]),
                                    calls |-> c.calls, beyond |-> Beyond(D), exp |-> res])>>)
 =============================================================================
